@@ -125,19 +125,39 @@ func resolvePDR(p sPDR, created []vCreated) rPDR {
 // that ID (requests of the alphabets always carry complete rules, so "replace" and TS 29.244 "merge" coincide),
 // updates of unknown IDs change nothing, removals delete.
 func (s *rSess) applyMod(r *sReq) {
+	// the UP-side UE address is sticky: a rule of a modification that asks for it again gets the address the session holds
+	// (a modification response carries no Created PDR)
+	sticky := uint32(0)
+	for _, p := range s.PDRs {
+		if p.AllocUE && p.UE != 0 {
+			sticky = p.UE
+			break
+		}
+	}
 	for _, p := range r.CreatePDR {
-		s.PDRs = append(s.PDRs, resolvePDR(p, nil))
+		n := resolvePDR(p, nil)
+		if n.AllocUE && n.UE == 0 {
+			n.UE = sticky
+		}
+		s.PDRs = append(s.PDRs, n)
 	}
 	s.FARs = append(s.FARs, r.CreateFAR...)
 	s.QERs = append(s.QERs, r.CreateQER...)
 	for _, p := range r.UpdatePDR {
 		if old := s.pdr(p.ID); old != nil {
 			n := resolvePDR(p, nil)
+			if n.AllocUE && n.UE == 0 {
+				n.UE = sticky
+			}
 			*old = n
 		}
 	}
 	for _, f := range r.UpdateFAR {
 		if old := s.far(f.ID); old != nil {
+			if f.HasFwd && !f.HasDst && old.HasDst {
+				// Destination Interface is conditional in Update Forwarding Parameters ("present if changed")
+				f.HasDst, f.Dst = true, old.Dst
+			}
 			*old = f
 		}
 	}
